@@ -53,7 +53,7 @@ APIS = {
     "exec_g_loop": "(function(){ var r=%(RG)s, k=0; while(r.exec(S) && k<50){ k++; } return k; })()",
 }
 API_NAMES = sorted(APIS)
-BUILDS = ("literal", "ctor")
+BUILDS = ("literal", "ctor", "setup_literal", "setup_ctor")   # setup_*: made by an EARLIER eval on the same context
 
 
 def render(cell):
@@ -62,6 +62,8 @@ def render(cell):
     pj = json.dumps(pat)
     if cell["build"] == "literal":
         R, RG = "/%s/" % pat, "/%s/g" % pat
+    elif cell["build"].startswith("setup_"):
+        R, RG = "rxs", "rxsg"
     else:
         R, RG = "new RegExp(%s)" % pj, "new RegExp(%s,'g')" % pj
     call = APIS[cell["api"]] % {"R": R, "RG": RG, "P": pj}
@@ -70,6 +72,15 @@ def render(cell):
     if wrap == "try":
         body = "var r0; try{ r0 = %s; }catch(e){ p('c'); r0 = 'caught:' + e.name; }" % call
     return "var S=%s;\n%s\n\"done\";" % (json.dumps(subj), body)
+
+
+def setup_src(cell):
+    if not cell["build"].startswith("setup_"):
+        return None
+    pat = FAMILIES[cell["family"]][0]
+    if cell["build"] == "setup_literal":
+        return "var rxs=/%s/, rxsg=/%s/g; 'setup';" % (pat, pat)
+    return "var rxs=new RegExp(%s), rxsg=new RegExp(%s,'g'); 'setup';" % (json.dumps(pat), json.dumps(pat))
 
 
 def n_cases(tier):
@@ -201,6 +212,11 @@ def execute(case):
     # The cap follows the budget: every matcher activation buys BOUND_C*(step_limit+2) more
     # work units, and a call may start at most 6*(n+2)+60 top-level attempts. Exceeding the cap
     # means one activation overran its step budget (or attempts never end): C10.bound/hang.
+    ssrc = setup_src(case["cell"])
+    if ssrc is not None:
+        run_eval(ctx, ssrc, 3_000_000)
+        if T is not None:
+            S.mono_off += 2.5 * T      # the process was stalled between the two evals
     start = S.work
     per_act = BOUND_C * (case["knobs"]["step_limit"] + 2) + BOUND_PER_ACT
     max_main = 6 * (n + 2) + 60
